@@ -38,7 +38,7 @@ fn rot3(p: Pt3, ax: f64, ay: f64, az: f64) -> Pt3 {
 }
 
 pub fn generate(rng: &mut Rng, thorough: bool, out: &mut Out) {
-    let n_cases = if thorough { 40000 } else { 2500 };
+    let n_cases = if thorough { 40000 } else { 6000 };
     let max_n = if thorough { 400 } else { 120 };
     // the pre-repair witnesses: small scale, fine tessellation
     {
